@@ -139,6 +139,7 @@ func init() {
 	sessionChecks["c14"] = func(c *Ctx, in, hin map[string]string, sc SessCfg, steps []string, cmp *SessCmp) {
 		// every CTCP-looking NOTICE the client wrote must be attributable to a sourced PRIVMSG CTCP request that is not ACTION
 		allowed := map[string]int{}
+		pingTexts := map[string][]string{} // requester -> payloads of its PING requests
 		for _, s := range steps {
 			if s[0] != 'R' {
 				continue
@@ -149,6 +150,9 @@ func init() {
 			}
 			if ok, ct := e.IsCTCP(); ok && ct.Command != "ACTION" {
 				allowed[girc.ToRFC1459(e.Source.Name)]++
+				if ct.Command == "PING" {
+					pingTexts[girc.ToRFC1459(e.Source.Name)] = append(pingTexts[girc.ToRFC1459(e.Source.Name)], ct.Text)
+				}
 			}
 		}
 		for _, l := range cmp.ImplW {
@@ -165,6 +169,19 @@ func init() {
 				} else {
 					allowed[e.Params[0]]--
 				}
+				// a PING answer carries back the requester's OWN payload (nothing left over from somebody else's request)
+				if body := strings.TrimSuffix(strings.TrimPrefix(e.Params[1], "\x01"), "\x01"); body == "PING" || strings.HasPrefix(body, "PING ") {
+					payload := strings.TrimPrefix(strings.TrimPrefix(body, "PING"), " ")
+					found := false
+					for _, t := range pingTexts[e.Params[0]] {
+						if t == payload {
+							found = true
+						}
+					}
+					if !found {
+						c.R.Violation("c14.ping_payload", hin, l, fmt.Sprintf("one of %q", pingTexts[e.Params[0]]), "the automatic PING answer does not carry the payload of a PING request from that nick")
+					}
+				}
 			}
 		}
 	}
@@ -180,6 +197,7 @@ func runC09Protocol(c *Ctx) {
 			c.run("sensitivefault", map[string]string{"pass": pw, "at": at})
 		}
 	}
+	c.run("saslreconnect", map[string]string{"scenario": "link drops after the first of three chunks; reconnect"})
 	for i := 0; i < 120*c.Scale; i++ {
 		in := map[string]string{"nick": "me", "check": "c09", "nosts": "1"}
 		// choose the password length so that the base64 response lands on / next to a multiple of 400
